@@ -97,12 +97,12 @@ theorem C18_range_slice (H : Hashes) (o : Obj) (r : Range) (st en : Nat)
 theorem C18_range_check (r : Range) (len : Nat) :
     rangeCheck r len = DtoSpec.rfcInterval (toByteRange r) len := rangeCheck_eq r len
 
-/-- head_object: length and metadata of the most recent write. Partial — answers agree up to the ETag, which the backend
-    never returns (fs:head-without-etag); a missing key in an existing bucket (`NoSuchKey`) and a missing bucket
-    (`NoSuchBucket`) are answered alike (d6f1a3c; before: fs:head-missing-key-code); excluded: a directory left behind at
-    the path (fs:leftover-directory) -/
+/-- head_object: length, metadata and MD5 ETag of the most recent write — the answers agree in every member (3751248;
+    before, head_object returned no ETag: fs:head-without-etag); a missing key in an existing bucket (`NoSuchKey`) and a
+    missing bucket (`NoSuchBucket`) are answered alike (d6f1a3c; before: fs:head-missing-key-code). Partial — excluded: a
+    directory left behind at the path (fs:leftover-directory) -/
 theorem C18_head_refines_partial (H : Hashes) (dl : Nat) {s : State} (hi : Inv s) {b k : Bytes} (hg : HeadOk s b k) :
-    (step H dl s (.headObject b k)).2.core = (StoreSpec.step H (abs s) (.headObject b k)).2.core ∧
+    (step H dl s (.headObject b k)).2 = (StoreSpec.step H (abs s) (.headObject b k)).2 ∧
     abs (step H dl s (.headObject b k)).1 = (StoreSpec.step H (abs s) (.headObject b k)).1 ∧
     Inv (step H dl s (.headObject b k)).1 := head_refines H dl hi hg
 
@@ -241,22 +241,22 @@ theorem C18_abort_refines_partial (H : Hashes) (dl : Nat) {s : State} (hi : Inv 
 
 /-- any request in `Good` (the disjunction, by operation, of the per-operation predicates) -/
 theorem C18_step_refines_partial (H : Hashes) (dl : Nat) {s : State} (hi : Inv s) {op : Op} (hg : Good s op) :
-    (step H dl s op).2.core = (StoreSpec.step H (abs s) op).2.core ∧
+    (step H dl s op).2 = (StoreSpec.step H (abs s) op).2 ∧
     abs (step H dl s op).1 = (StoreSpec.step H (abs s) op).1 ∧ Inv (step H dl s op).1 :=
   step_refines H dl hi hg
 
 /-- all operation lists, by induction: if every request meets `Good` in the state in which it arrives, the backend's
-    answers are the store's (up to the ETag of head_object), its final state abstracts to the store's final state, and the
+    answers are the store's, its final state abstracts to the store's final state, and the
     invariant holds throughout -/
 theorem C18_history_refines_partial (H : Hashes) (dl : Nat) (ops : List Op) (s : State) (hi : Inv s)
     (hg : GoodRun H dl s ops) :
-    (run H dl s ops).2.map Resp.core = (StoreSpec.run H (abs s) ops).2.map Resp.core ∧
+    (run H dl s ops).2 = (StoreSpec.run H (abs s) ops).2 ∧
     abs (run H dl s ops).1 = (StoreSpec.run H (abs s) ops).1 ∧ Inv (run H dl s ops).1 :=
   history_refines H dl ops s hi hg
 
 /-- histories from the empty directory against the empty store -/
 theorem C18_history_from_empty_partial (H : Hashes) (dl : Nat) (ops : List Op) (hg : GoodRun H dl {} ops) :
-    (run H dl {} ops).2.map Resp.core = (StoreSpec.run H {} ops).2.map Resp.core ∧
+    (run H dl {} ops).2 = (StoreSpec.run H {} ops).2 ∧
     abs (run H dl {} ops).1 = (StoreSpec.run H {} ops).1 :=
   let h := history_refines H dl ops {} inv_empty hg
   ⟨h.1, h.2.1⟩
@@ -317,7 +317,7 @@ def demo : List Op := [
 example : GoodRun H0 4096 {} demo := by decide
 
 /-- … so the theorem applies to it -/
-example : (run H0 4096 {} demo).2.map Resp.core = (StoreSpec.run H0 {} demo).2.map Resp.core :=
+example : (run H0 4096 {} demo).2 = (StoreSpec.run H0 {} demo).2 :=
   (C18_history_from_empty_partial H0 4096 demo (by decide)).1
 
 /-- the per-operation predicates are inhabited on a state with objects: an overwrite carrying metadata, a ranged read,
